@@ -406,6 +406,7 @@ def r7_parts_own_their_cursor(rep, src):
     names = ['debian-binary', 'control.tar.gz', 'data.tar.xz']
     heap = H.Heap(mod, hooks={'ArFile.__init__': lambda it, args, kw: None, '.getnames': lambda it, args, kw: it.h.new_list(list(names)),
                               '.getmember': getmember, '.read': lambda it, args, kw: '2.0\n', '.close': lambda it, args, kw: None})
+    heap.symbolic_strings = True
     me = heap.alloc('DebFile', {}, name='@deb')
     it = H.Interp(heap)
     it.call(H.Closure(f.node, {}, me, f.cls), [None, 'r', None])
